@@ -160,10 +160,14 @@ def window_k():
     return _smt_result(recs, v)
 
 
+def _loop_name():
+    return Eviction.discover(RateLimiter, "self.buckets", calls={"time.monotonic": lambda: z3.RealVal(0)})[0]
+
+
 def _evict_pred(state, t2, C, r):
     """eviction condition of the clean-up loop for a bucket in ``state`` when the clock reads t2 (regenerated from the
     source of _cleanup_loop and whatever helpers it calls)"""
-    ev = Eviction(RateLimiter._cleanup_loop, "self.buckets", calls={"time.monotonic": lambda: t2})
+    _name, ev = Eviction.discover(RateLimiter, "self.buckets", calls={"time.monotonic": lambda: t2})
     attrs = {k[5:]: v for k, v in state.items()}
     return ev.predicate(attrs, {"self.config.capacity": C, "self.config.refill_rate": r})
 
@@ -258,7 +262,7 @@ def replay_cleanup(C, r, tok, last, t1, t2):
             clk.now = t2
             return rl
         with_cleanup = mk()
-        co = internal(with_cleanup, "_cleanup_loop")()
+        co = getattr(with_cleanup, _loop_name())()
         try:
             co.send(None)
         except (StopIteration, _asyncio.CancelledError):
@@ -381,7 +385,7 @@ def _real_evicted(C, r, tok, last, t2):
         b.last_update = last
         internal(rl, "buckets")["203.0.113.9"] = b
         clk.now = t2
-        co = internal(rl, "_cleanup_loop")()
+        co = getattr(rl, _loop_name())()
         try:
             co.send(None)
         except (StopIteration, _asyncio.CancelledError):
